@@ -6,7 +6,9 @@ void PolarGrid::RadialAnisotropicDivision(std::vector<double>& r_temp, const dou
 {
     // Calculate the percentage of refinement_radius.
     const double percentage = (refinement_radius - R0) / (R - R0);
-    assert(percentage >= 0.0 && percentage <= 1.0);
+    if (!(percentage >= 0.0 && percentage <= 1.0)) {
+        throw std::runtime_error("The refinement radius of an anisotropic grid must lie between R0 and Rmax.\n");
+    }
 
     // 1) uniform division with nr=2^dummy_lognr - 2^aniso
     // 2) remaining nodes are added by refining the part centered around 2/3 of r
@@ -36,13 +38,17 @@ void PolarGrid::RadialAnisotropicDivision(std::vector<double>& r_temp, const dou
     // edge
     int se;
 
+    // Centre of the refined window; kept inside the uniform division when the refinement radius is Rmax.
+    const int centre = std::min(static_cast<int>(floor(nr * percentage)), nr - 1);
+
     // Added by Allan Kuhn to fix a memory error
-    if (floor(nr * percentage) > nr - (n_elems_refined / 2)) {
-        int new_aniso   = log2(nr - floor(nr * percentage)) + 1;
+    if (centre > nr - (n_elems_refined / 2)) {
+        int new_aniso   = log2(nr - centre) + 1;
         n_elems_refined = pow(2, new_aniso);
     }
 
-    se     = floor(nr * percentage) - n_elems_refined / 2;
+    // A refinement radius close to R0 moves the window up so that it starts at the first node.
+    se     = std::max(centre - n_elems_refined / 2, 0);
     int ee = se + n_elems_refined;
     // takeout
     int st = ceil((double)n_elems_refined / 4.0 + 1) - 1;
